@@ -10,6 +10,15 @@
   `LoadLatest` is split where writes of other processes can land: stat | read | store.
   TTL / capacity eviction and `Invalidate` only ever delete entries: `evict f`, `invalidate f`.
 
+  `LoadLatest` follows the code after fix F46 (99b4ced): the entry is read ONCE (`c.entries.Load`),
+  and the loader is called when the entry is stale OR there is none. Before that fix the not-stale
+  branch read the map a second time and asserted `item.(Entry[T])`: a name without entry whose file
+  looked like the zero `Entry[T]{}` (empty, mtime = epoch) panicked, and so did an eviction /
+  `Invalidate` landing between the two reads. The old behaviour is kept as `Variant.preF46`
+  (regression example in Props/C07Cache.lean). The model's hit path is ONE atomic step (stat + the
+  single map read); the real interleavings with concurrent deletions are sampled by the harness op
+  `race` (go/harness/cache), not modelled.
+
   The same definitions, with one of two edits applied, are the mutants the property theorems are
   sensitive to (`Variant.mutA`: `Store` uses a stat taken AFTER the loader; `Variant.mutB`: `IsStale`
   compares only the mtime). Core-only.
@@ -54,6 +63,7 @@ inductive Variant
   | real
   | mutA      -- Store(fileName, data, <stat taken after the loader returned>)
   | mutB      -- IsStale: `entry.LastModified < t` only
+  | preF46    -- before fix F46: no `|| !cached`; the not-stale branch asserts the (possibly nil) map item
 deriving DecidableEq, Repr
 
 /-- `IsStale` (after a successful stat) -/
@@ -74,7 +84,7 @@ inductive Out
   | errStat               -- LoadLatest: "failed to stat file" (the name does not exist)
   | errLoad               -- LoadLatest: the loader failed, file gone between stat and read
   | errEmpty              -- LoadLatest: the loader failed with EOF (the file holds no status yet)
-  | panic                 -- LoadLatest: `item.(Entry[T])` on a nil item (no entry, yet "not stale")
+  | panic                 -- LoadLatest before fix F46: `item.(Entry[T])` on a nil item (no entry, yet "not stale")
 deriving DecidableEq, Repr
 
 def Out.isErr : Out → Bool
@@ -100,7 +110,8 @@ def loadV (v : Variant) (s : State) (f : Nat) (pre post : List Write) (rm : Bool
   match s.files f with
   | none => (s, .errStat)                                   -- (1) stat fails; cache untouched
   | some fi =>
-    if isStaleV v ((s.cache f).getD zeroEntry) fi then
+    -- `stale || !cached` (the `!cached` disjunct is fix F46)
+    if isStaleV v ((s.cache f).getD zeroEntry) fi || (match v with | .preF46 => false | _ => (s.cache f).isNone) then
       let fi1 := applyWrites fi pre
       if rm then ({ s with files := upd s.files f none }, .errLoad)       -- (3) loader: open fails
       else
@@ -113,7 +124,7 @@ def loadV (v : Variant) (s : State) (f : Nat) (pre post : List Write) (rm : Bool
     else
       match s.cache f with                                   -- (2) not stale: the entry's data, no loader call
       | some e => (s, .data e.data)
-      | none => (s, .panic)
+      | none => (s, .panic)                                  -- only reachable for `preF46`
 
 def stepV (v : Variant) (s : State) : Op → State × Out
   | .create f w => ({ s with files := upd s.files f (some ⟨w.grow, w.dt, w.newData⟩) }, .ok)
@@ -130,6 +141,7 @@ def stepV (v : Variant) (s : State) : Op → State × Out
 def step : State → Op → State × Out := stepV .real
 def stepMutA : State → Op → State × Out := stepV .mutA
 def stepMutB : State → Op → State × Out := stepV .mutB
+def stepPreF46 : State → Op → State × Out := stepV .preF46
 
 /-- run a list of operations; answers oldest first -/
 def runWith (st : State → Op → State × Out) (s : State) : List Op → State × List Out
